@@ -1,5 +1,5 @@
 CFG = {
-    "lean_targets": ["Norad.Props.C01", "Norad.Props.C01Bridge"],
+    "lean_targets": ["Norad.Props.C01", "Norad.Props.C01Bridge", "Norad.Props.C01Stores"],
     "extract": "roundtrip",
     "audit": "Norad/Audit/C01.lean",
     "rule": ("fonts built through the public API (every int-or-float font-info field and list, unitsPerEm, ~100 other font-info fields from a seed, guidelines with "
@@ -36,7 +36,7 @@ MANIFEST = {
              "saturating i32 cast, reads back within 1e-9 relative for every value that is 0 or of magnitude > 2^-52; counterexample at 1e-17 recorded), the pinned tree's "
              "truncation (1-2^-53 -> 0) and saturation (3e9 -> 2147483647) as counterexample theorems next to the repaired writers (fix: commits), num_roundtrip at the level of "
              "in-memory numbers, lib_roundtrip (recursive key sorting shows the same node at every path), features_roundtrip (CRLF->LF keeps the line-ending normal form; "
-             "non-idempotence counterexample), layers_roundtrip_order / layers_default_moved_to_front, metainfo_roundtrip. Source-level tie (regenerated from the Rust on every run): source_gates_match_defaults (every attribute the glif writer omits under a gate is omitted exactly at the value the parser assumes when it is absent), source_element_gates_match_defaults, source_absent_files_read_as_empty (every file written only when non-empty reads back as the empty value), source_file_gates_match_model, source_glif_gates_match_model_encoder (the extracted gate table confirmed row by row on the C02 model encoder), source_number_writers_match_model (tests, EPSILON, i32 bounds, casts, colour decimals). Correspondence: generated fonts x WriteOptions through "
+             "non-idempotence counterexample), layers_roundtrip_order / layers_default_moved_to_front, metainfo_roundtrip. Instantiated parts: glyph files by C02 (glif_roundtrip_partial_no_object_libs; noradNorm: a glyph read back is inside the guard again, so norad_output_is_fixed_point_glif has no glyph assumption), font-info serde by the table-driven fontinfo_fieldtable_roundtrip / metainfo_ / guideline_ (read(write v) = v for every value of the 108-field table regenerated from the source, records and vectors nested, under the leaf law only; shape decided on the table: source_field_tables_shape), stores by C16 through an explicit embedding (data_files_roundtrip, image_files_roundtrip: plan runs, every file holds the entry's bytes, the lazily listed store returns them at first access; lazy_iter_any_order). Source-level tie (regenerated from the Rust on every run): source_gates_match_defaults (every attribute the glif writer omits under a gate is omitted exactly at the value the parser assumes when it is absent), source_element_gates_match_defaults, source_absent_files_read_as_empty (every file written only when non-empty reads back as the empty value), source_file_gates_match_model, source_glif_gates_match_model_encoder (the extracted gate table confirmed row by row on the C02 model encoder), source_number_writers_match_model (tests, EPSILON, i32 bounds, casts, colour decimals). Correspondence: generated fonts x WriteOptions through "
              "Font::save_with_options / Font::load, written files and loaded font compared with the model, specification oracle on the loaded font."),
     "design_ref": "5 / C01, Appendix E, sections 6 and 8",
     "note": "trusted: Lean kernel + 3 standard axioms; harness/driver glue; plist crate and f64 formatting as parameters; glyphs, other font-info fields and stores as opaque tokens (their own properties)",
